@@ -35,7 +35,9 @@ var corePark = []string{
 	"serve.lookup.after", "serve.offer.before", "serve.awaitclose.before", "serve.awaitclose.after",
 	"serve.offer.ctxdone", "serve.handler.before",
 }
-var coreNote = []string{"serve.iter"}
+// send.enter is noted (not parked) so that the oracle sees whether a call
+// starts writing its element before it has registered its id
+var coreNote = []string{"serve.iter", "send.enter"}
 
 // generous: a stall is inferred only from the absence of an arrival, and the
 // machine may be heavily loaded; passing runs never wait for it
@@ -122,7 +124,7 @@ type markerM struct {
 func autoClosing(entry string) bool { return strings.HasPrefix(entry, "Unmarshal") }
 
 var entriesByKind = map[string][]string{
-	"iq": {"SendIQ", "SendIQElement", "EncodeIQ", "EncodeIQElement", "UnmarshalIQ", "UnmarshalIQElement", "IterIQ", "IterIQElement"},
+	"iq":       {"SendIQ", "SendIQElement", "EncodeIQ", "EncodeIQElement", "UnmarshalIQ", "UnmarshalIQElement", "IterIQ", "IterIQElement"},
 	"message":  {"SendMessage", "SendMessageElement", "EncodeMessage", "EncodeMessageElement"},
 	"presence": {"SendPresence", "SendPresenceElement", "EncodePresence", "EncodePresenceElement"},
 }
@@ -331,27 +333,27 @@ func stanzaBytes(st peerSt, n int) []byte {
 // ---- the run ----
 
 type coreRun struct {
-	g        *agate
-	p        *hx.Pipe
-	s        *xmpp.Session
-	serve    *actor
-	spos     string // idle lookupafter offerbefore offering awaitbefore awaiting awaitafter offerctx handlerbefore
-	offerTo  int
-	curSt    int // arrival number being processed
-	lookupID string
-	reqs     []*rstate
-	table    map[string]int // mirror of the pending table: id -> call index
-	arrivals []peerSt
-	handled  []int
-	hlog     chan int
-	labels   []string
-	ids      map[string]int
+	g          *agate
+	p          *hx.Pipe
+	s          *xmpp.Session
+	serve      *actor
+	spos       string // idle lookupafter offerbefore offering awaitbefore awaiting awaitafter offerctx handlerbefore
+	offerTo    int
+	curSt      int // arrival number being processed
+	lookupID   string
+	reqs       []*rstate
+	table      map[string]int // mirror of the pending table: id -> call index
+	arrivals   []peerSt
+	handled    []int
+	hlog       chan int
+	labels     []string
+	ids        map[string]int
 	servePanic chan string
 	serveDone  chan struct{}
-	failed   bool
-	failKey  string
-	failWhat string
-	classes  map[string]bool
+	failed     bool
+	failKey    string
+	failWhat   string
+	classes    map[string]bool
 }
 
 func nsNum(ns string) int {
@@ -451,6 +453,15 @@ func (x *coreRun) teardown() {
 // expect waits for one of the given events of actor a.
 func (x *coreRun) expect(a *actor, key, what string, evs ...string) string {
 	e := await(a, watchdog)
+	for e == "@send.enter" {
+		for _, w := range evs {
+			if w == "sendresp.registered" {
+				x.fail("C06/sendresp/sent-before-registration", "the call started to send its element before it registered its id: a fast reply finds no entry, goes to the handler, and the call waits until its context ends")
+				return ""
+			}
+		}
+		e = await(a, watchdog)
+	}
 	for _, w := range evs {
 		if e == w {
 			return e
